@@ -1244,3 +1244,24 @@ _dispatch_event_loop_drain_timers(dispatch_timer_heap_t dth, uint32_t count)
 		 */
 	} while (unlikely(dth[0].dth_dirty_bits));
 }
+
+#if DISPATCH_VERIF
+/* verification shim: drive the file-static timer heap from a test harness */
+#pragma clang diagnostic ignored "-Wmissing-prototypes"
+#define DV_EXPORT __attribute__((visibility("default")))
+DV_EXPORT void *_dispatch_verif_heap_new(void) { return calloc(1, sizeof(struct dispatch_timer_heap_s)); }
+DV_EXPORT void *_dispatch_verif_timer_new(uint64_t target, uint64_t deadline) {
+	dispatch_timer_source_refs_t dt = calloc(1, sizeof(struct dispatch_timer_source_refs_s));
+	dt->dt_timer.target = target; dt->dt_timer.deadline = deadline; dt->dt_timer.interval = UINT64_MAX;
+	dt->dt_heap_entry[DTH_TARGET_ID] = DTH_INVALID_ID; dt->dt_heap_entry[DTH_DEADLINE_ID] = DTH_INVALID_ID;
+	return dt; }
+DV_EXPORT void _dispatch_verif_heap_insert(void *h, void *dt) { _dispatch_timer_heap_insert(h, dt); }
+DV_EXPORT void _dispatch_verif_heap_remove(void *h, void *dt) { _dispatch_timer_heap_remove(h, dt); }
+DV_EXPORT void _dispatch_verif_heap_update(void *h, void *dtp, uint64_t target, uint64_t deadline) {
+	dispatch_timer_source_refs_t dt = dtp; dt->dt_timer.target = target; dt->dt_timer.deadline = deadline;
+	_dispatch_timer_heap_update(h, dt); }
+DV_EXPORT uint32_t _dispatch_verif_heap_count(void *h) { return ((dispatch_timer_heap_t)h)->dth_count; }
+DV_EXPORT void *_dispatch_verif_heap_slot(void *h, uint32_t idx) { return *_dispatch_timer_heap_get_slot(h, idx); }
+DV_EXPORT void *_dispatch_verif_heap_min(void *h, int hid) { return ((dispatch_timer_heap_t)h)->dth_min[hid]; }
+DV_EXPORT uint32_t _dispatch_verif_timer_entry(void *dt, int hid) { return ((dispatch_timer_source_refs_t)dt)->dt_heap_entry[hid]; }
+#endif
